@@ -150,7 +150,7 @@ def nontrivial(c, o):
 RULE = ("systematic: {for over a local, for over an injected struct field (every step evaluation observable in the host store), forRange} x {break, continue, return, none} x 5 nesting positions (loop body, inside if, else, else-if, nested loop) x 3 iteration indexes, with Mark calls making the executed path observable; "
         "else-if chains of length 0-3 with every truth vector, with and without else; the 10,000-iteration cap (9,999 / 10,000 / unbounded); the four compound assignments on 8 target kinds (local, struct field, nested field by value and by pointer, map entries, slice elements); "
         "a local assigned two blocks deep read at top level; random statement trees of depth <= 3 (thorough 5) with ~5% wild constructs (non-boolean conditions, break outside loops, undefined locals); "
-        "three driver-stated scenarios (forRange over a slice field that the body shrinks / grows through a host method: the indexes present at the start are visited once each); compared: outcome class, returned value, cited positions, the full sequence of calls with argument values and dynamic types, and the host objects afterwards; distinct non-trivial = distinct statement-tree shapes containing a loop or branch")
+        "five driver-stated scenarios (forRange over a slice field that the body shrinks / grows through a host method: the indexes present at the start are visited once each; compound assignments whose right-hand side changes the target through a host method: the right-hand side is evaluated before the target is read); compared: outcome class, returned value, cited positions, the full sequence of calls with argument values and dynamic types, and the host objects afterwards; distinct non-trivial = distinct statement-tree shapes containing a loop or branch")
 
 
 def shrink_scenarios():
@@ -167,6 +167,12 @@ def shrink_scenarios():
     out.append(("forrange-over-a-field-shrunk-at-once", b2, [h4(), inj_func("Mark")], {"class": "ok", "Mark": 5, "ShrinkSL": 4}))
     b3 = block([sforrange("k", "h.SL", block([mark(("var", "k")), scall(call("method", "h.PushSL", [("const", kint(1))]))])), mark(("const", kint(99)))])
     out.append(("forrange-over-a-field-that-grows", b3, [h4(), inj_func("Mark")], {"class": "ok", "Mark": 5, "PushSL": 4}))
+    # `t op= e`: e is evaluated first, then t is read, updated and written — visible when e itself changes t (a host method does)
+    hm = lambda: inj_struct("h", fields={"I64": tv_int("i64", 5)}, m={"k": 2})
+    b4 = block([assign(("map", mapvar("h.M", ("str", "k"))), "*=", ("math", matom(acall(call("method", "h.BumpM", [])))))], ("expr", emath(matom(amap(mapvar("h.M", ("str", "k")))))))
+    out.append(("compound-assignment-whose-right-hand-side-changes-the-map-entry", b4, [hm()], {"class": "ok", "BumpM": 1, "ret": 30}))
+    b5 = block([assign(("var", "h.I64"), "+=", ("math", matom(acall(call("method", "h.BumpI", [])))))], ("expr", emath(mvar("h.I64"))))
+    out.append(("compound-assignment-whose-right-hand-side-changes-the-field", b5, [hm()], {"class": "ok", "BumpI": 1, "ret": 101}))
     return out
 
 
